@@ -24,7 +24,8 @@ import c12_eps as E
 from c12_util import LAYOUT_CODE, LAYOUTS, is_store_path, poison_returned, returned_arrays, walk
 
 CONFIG = {
-    "cone": ["Base/ListUtil.v", "Model/Store.v", "Proofs/StoreProofs.v", "Model/Alias.v", "Proofs/AliasProofs.v", "Properties/C12.v"],
+    "cone": ["Base/ListUtil.v", "Model/Store.v", "Proofs/StoreProofs.v", "Model/Alias.v", "Proofs/AliasSound.v", "Proofs/AliasEnumA.v",
+             "Proofs/AliasEnumB.v", "Proofs/AliasEnumC.v", "Proofs/AliasEnumD.v", "Proofs/AliasProofs.v", "Properties/C12.v"],
     "trusted": [
         "coq/Model/Alias.v: the per-entry-point programs are hand-written transcriptions of the Python (one instruction per "
         "aliasing-relevant statement, Python line cited); they are tied to the code by the dynamic alias-relation comparison only",
@@ -41,7 +42,8 @@ CONFIG = {
                   "reachable from self, writes through returned values cannot change store or caller buffers. Second group over "
                   "Model/Store.v: dict, tuple, pandas (+get_field, iterelites), iteration and single-field reads all equal map row olist.",
     "level_note": "The programs describe the code as the property requires (copies); where the unchanged pyribs differs the harness "
-                  "reports the finding (F3, F4, F5, F14, F15 + F16/F17 found by this check) with a concrete failing input. Control flow of an entry point is "
+                  "reports the finding (F3, F4, F5, F15; F14 is fixed in /repo; FC12a from_raw_dict, FC12b GaussianOperator sigma, FC12c "
+                  "GradientArborescenceEmitter.ask_dqd found by this check; patches in fixes/) with a concrete failing input. Control flow of an entry point is "
                   "covered by enumerating its straight-line path variants, loops by one unrolled iteration (the alias relation of an "
                   "iteration does not depend on the index). The programs are hand-written: the tie to the code is the dynamic "
                   "comparison (sampled), not a proof. No axioms.",
@@ -50,7 +52,7 @@ CONFIG = {
 }
 
 THEOREMS = ["alias_sound", "C12_caller_arrays_not_mutated", "C12_caller_arrays_not_retained", "C12_outputs_are_copies_or_readonly",
-            "C12_read_paths_agree"]
+            "C12_read_paths_agree", "C12_pandas_columns", "C12_elites_are_the_stored_rows"]
 
 
 # ---------------------------------------------------------------------------------------------
@@ -106,8 +108,12 @@ def run_case(case, mode="observe", only_arg=None):
         exc = type(e).__name__
         ctx.exc_text = repr(e)[:300]
     obs = None
+    held = []
     if mode == "observe":
         obs = observe(ctx, ret, exc)
+        # outputs the caller now holds and may write to: they must be copies, so nothing pyribs does later may change them
+        held = [(p, r, r.tobytes()) for p, r in (returned_arrays(ret) if ret is not None else [])
+                if r.dtype != object and r.size > 0 and r.flags.writeable]
     elif mode == "poison_caller":
         for a in ctx.args:
             if only_arg is None or a.name == only_arg:
@@ -115,6 +121,8 @@ def run_case(case, mode="observe", only_arg=None):
     elif mode == "poison_returned":
         poison_returned(ret)
     dig = ctx.digest()
+    if obs is not None:
+        obs["ret_changed"] = [p for p, r, b in held if r.tobytes() != b][:4]
     return ctx, obs, dig, exc
 
 
@@ -157,6 +165,9 @@ def oracle(case, obsA=None, digA=None, attribute=True):
     for name, o in obsA["args"].items():
         if o["mut"]:
             out.append({"effect": "mut", "arg": name, "text": "the caller's %s was changed by the call: %s" % (name, json.dumps(o.get("diff"))[:300])})
+    if obsA.get("ret_changed"):
+        out.append({"effect": "unstable", "arg": None, "text": "writable arrays handed out by the call (%s) were changed by LATER calls on the object "
+                    "while the caller held them: they are live views of internal state, not copies" % ", ".join(obsA["ret_changed"])})
     if obsA["args"]:
         _, _, digB, _ = run_case(case, "poison_caller")
         if digB != digA:
@@ -212,15 +223,23 @@ def classify(case, ctx_ep, f):
         return "dqd-jacobian-inplace"
     if eff == "ret" and (ctx_ep.startswith("Sliding.") or (ctx_ep in ("Scheduler.tell", "Scheduler.tell_dqd", "Bandit.tell") and kind == "sliding")):
         return "sliding-buffer-retains-caller"
-    if eff == "rw_store" and ctx_ep in ("Store.iter", "Archive.iter"):
-        return "iteration-yields-writable-views"
+    if ctx_ep == "Emitter.ask" and eff in ("rw_self", "unstable", "rw_store"):
+        return "ask-returns-live-view"
+    if eff in ("rw_store", "unstable") and ctx_ep in ("Store.iter", "Archive.iter"):
+        return "iter-writable-view"
     if eff == "mut" and ctx_ep == "viz.parallel_axes_plot":
         return "parallel-axes-sorts-caller-frame"
     if eff == "ret" and ctx_ep == "Store.from_raw_dict":
         return "from-raw-dict-keeps-caller-arrays"
+    if eff == "ret" and ctx_ep == "GA.ctor" and arg == "sigma":
+        return "operator-arg-retained"
     if eff == "ret" and ctx_ep in CTORS:
-        return "constructor-keeps-caller-array"
-    return "unclassified:%s:%s:%s" % (ctx_ep, eff, arg)
+        return "ctor-arg-retained"
+    if eff == "unstable":
+        return "returned-array-live-view"
+    generic = {"mut": "caller-array-mutated", "ret": "caller-array-retained", "rcaller": "caller-array-handed-back",
+               "rw_store": "returned-writable-store-view", "rw_self": "returned-writable-internal-view"}.get(eff, "alias-relation-differs:" + str(eff))
+    return "unclassified:%s@%s%s" % (generic, ctx_ep, ":" + arg if arg else "")
 
 
 # ---------------------------------------------------------------------------------------------
@@ -234,7 +253,7 @@ def rand_layouts(rng, names, bias=None):
 
 def base_cfg(rng, kind=None):
     cfg = {"kind": kind or rng.choice(ARCH_KINDS), "dtype": rng.choice(["float64", "float64", "float32"]),
-           "extras": rng.choice([0, 1]), "state": rng.choice(["empty", "some", "some", "dense"]), "pseed": rng.randrange(1000)}
+           "extras": rng.choice([0, 1]), "state": rng.choice(["empty", "some", "some", "dense", "full"]), "pseed": rng.randrange(1000)}
     if cfg["kind"] == "grid":
         cfg["mae"] = rng.choice([0, 0, 1])
     if cfg["kind"] == "cvt":
@@ -272,7 +291,7 @@ EP_WEIGHTS = [
     ("Archive.sample_elites", 2), ("Archive.data", 4), ("Archive.best_elite", 2), ("Archive.iter", 3), ("Archive.index_of", 2),
     ("Archive.index_of_single", 1), ("CVT.ctor_centroids", 2), ("CVT.ctor_samples", 1), ("Grid.ctor", 1), ("Archive.cqd_score", 1),
     ("Proximity.compute_novelty", 1), ("Emitter.ctor", 6), ("Emitter.tell", 5), ("Emitter.tell_dqd", 5), ("Scheduler.tell", 5),
-    ("Scheduler.tell_dqd", 3), ("Bandit.tell", 2), ("Adam.ctor", 1), ("Adam.reset", 1), ("Adam.step", 1), ("GradAscent.ctor", 1),
+    ("Scheduler.tell_dqd", 3), ("Bandit.tell", 2), ("Emitter.ask", 5), ("Adam.ctor", 1), ("Adam.reset", 1), ("Adam.step", 1), ("GradAscent.ctor", 1),
     ("GradAscent.reset", 1), ("GradAscent.step", 1), ("viz", 3),
 ]
 
@@ -306,6 +325,13 @@ def gen_case(rng, ep=None, bias=None):
         cfg = base_cfg(rng, rng.choice(["grid", "cvt"]))
         cfg["emitter"] = rng.choice(["gaussian", "isoline", "es", "gae", "goe", "ga"])
         cfg["init"] = rng.choice([0, 1])
+    elif ep == "Emitter.ask":
+        cfg = base_cfg(rng, rng.choice(["grid", "cvt"]))
+        cfg["emitter"] = rng.choice(["gaussian", "isoline", "es", "gae", "goe", "ga"])
+        cfg["which"] = rng.choice(["ask", "ask_dqd"]) if cfg["emitter"] in ("gae", "goe") else "ask"
+        cfg["init"] = rng.choice([0, 1])
+        cfg["es"] = rng.choice(["cma_es", "sep_cma_es", "openai_es"])
+        cfg["grad_opt"] = rng.choice(["adam", "gradient_ascent"])
     elif ep == "Emitter.tell":
         cfg = base_cfg(rng, rng.choice(["grid", "cvt", "sliding"]))
         cfg["emitter"] = rng.choice(["gaussian", "isoline", "es", "es", "gae", "gae", "goe"])
@@ -359,7 +385,7 @@ def findings_of(case, driver):
     ctx, obs, pred, dis, orc, exc = evaluate(case, driver)
     kinds = {}
     for f in dis:
-        if f["effect"] in ("mut", "ret", "rw_store", "rcaller", "model-program-stuck", "exposed", "exp_store", "ro_store", "rw_self"):
+        if f["effect"] in ("mut", "ret", "rw_store", "rcaller", "model-program-stuck", "exposed", "exp_store", "ro_store", "rw_self"):  # all compared effects
             kinds.setdefault(classify(case, ctx.ep, f), []).append(("model-vs-impl", f))
     for f in orc:
         kinds.setdefault(classify(case, ctx.ep, f), []).append(("oracle", f))
@@ -367,7 +393,7 @@ def findings_of(case, driver):
 
 
 SIMPLER = {  # per config key: values in order of preference (simplest first); the shrinker only moves towards the front
-    "state": ["empty", "some", "dense"], "n": [1, 2, 4], "extras": [0, 1], "dtype": ["float64", "float32"], "mae": [0, 1],
+    "state": ["empty", "some", "dense", "full"], "n": [1, 2, 4], "extras": [0, 1], "dtype": ["float64", "float32"], "mae": [0, 1],
     "result": [0, 1], "mode": ["batch", "single"], "spy": [0, 1], "intent": ["mixed", "reject"], "lc": [0, 1], "kd": [1, 0],
     "emitters": [["gaussian"], ["gaussian", "es"], ["es", "isoline"]], "pseed": [0], "normalize": [1, 0], "init": [0, 1],
     "rtype": ["dict"], "cap": [6, 3, 1],
@@ -375,7 +401,7 @@ SIMPLER = {  # per config key: values in order of preference (simplest first); t
 LAYOUT_RANK = {"pylist": 0, "exact": 1, "otherdtype": 2, "view": 3, "noncontig": 4}
 
 
-def shrink(case, kind, driver, need_oracle=False, max_evals=60):
+def shrink(case, kind, driver, need_oracle=False, max_evals=40):
     """greedy simplification keeping the same finding kind: innocuous layouts, empty state, smallest batch, default config.
     Every step moves strictly towards the front of a preference list, so it terminates."""
     evals = [0]
@@ -503,6 +529,19 @@ def read_paths_case(rng, driver, rep):
     paths["iterelites"] = [[int(e["index"]), dec_row({f: e[f] for f in fields})] for e in df.iterelites()]
     cols = [[int(x) for x in df["index"]], [int(x) for x in df["objective"]]]
     paths["pandas"] = [[i, o] for i, o in zip(*cols)]
+    # what get_field / iterelites hand out are copies: writing into them changes neither the frame nor what a second call returns
+    from c12_util import canon
+    df_before = canon(df)
+    first = {"get_field": paths["get_field"], "iterelites": paths["iterelites"]}
+    handed = [gf, list(df.iterelites())]
+    poison_returned(handed)
+    gf2 = {f: df.get_field(f) for f in fields + ["index"]}
+    second = {"get_field": [[int(gf2["index"][k]), dec_row({f: gf2[f][k] for f in fields})] for k in range(len(df))],
+              "iterelites": [[int(e["index"]), dec_row({f: e[f] for f in fields})] for e in df.iterelites()]}
+    if canon(df) != df_before or second != first or canon(obj.data()) != canon(d):
+        rep.violation("writing into arrays handed out by ArchiveDataFrame.get_field / iterelites changed the frame, a later read of it, or the store",
+                      {"kind": "oracle", "case": {"readpaths": kind, "dtype": dt.name, "cap": cap, "ops": ops}, "first_read": first, "second_read": second,
+                       "frame_changed": canon(df) != df_before, "theorems_at_stake": ["C12_read_paths_agree"]}, True, {"kind": "df-read-not-a-copy"})
     mout = driver.call("C12", [1, cap, ops])
     mpaths = dict(zip(["dict", "tuple", "single", "iter", "pandas", "get_field", "iterelites"], mout))
     bad = {k: {"impl": paths[k], "model": mpaths[k]} for k in paths if paths[k] != mpaths[k]}
@@ -567,8 +606,23 @@ def forced_cases():
             for k in ("ctor", "reset", "step"):
                 mk("%s.%s" % (w, k), {"dtype": "float64"}, {ARG_NAMES["%s.%s" % (w, k)][0]: lay})
         mk("Store.from_raw_dict", {"dtype": "float64", "state": "some", "pseed": 1, "cap": 6}, {"occupied": lay, "solution": lay})
+    for em in ("gaussian", "isoline", "es", "gae", "goe", "ga"):
+        for which in (("ask", "ask_dqd") if em in ("gae", "goe") else ("ask",)):
+            for state in ("empty", "some"):
+                mk("Emitter.ask", {"kind": "grid", "dtype": "float64", "extras": 0, "state": state, "pseed": 1, "emitter": em, "which": which,
+                                   "init": 0, "mae": 0, "es": "cma_es", "grad_opt": "adam"}, {})
     for rt in E.RTYPES:
         mk("Store.data", {"dtype": "float64", "state": "some", "pseed": 1, "cap": 6, "rtype": rt}, {})
+    for rt in E.RTYPES:  # every cell occupied in index order: "all of the store" and the internal arrays coincide
+        for cap in (1, 6):
+            mk("Store.data", {"dtype": "float64", "state": "full", "pseed": 1, "cap": cap, "rtype": rt}, {})
+            mk("Store.retrieve", {"dtype": "float64", "state": "full", "pseed": 1, "cap": cap, "n": cap, "rtype": rt}, {"indices": "exact"})
+    for kind in ("grid", "cvt"):
+        base = {"kind": kind, "dtype": "float64", "extras": 1, "state": "full", "pseed": 2, "n": 3, "lc": 0, "kd": 1, "mae": 0}
+        for rt in ("dict", "tuple", "pandas", "single", "pandas_get_field", "pandas_iterelites"):
+            mk("Archive.data", dict(base, rtype=rt), {})
+        for ep in ("Archive.best_elite", "Archive.sample_elites", "Archive.iter"):
+            mk(ep, base, {})
     for ep in ("Store.iter", "Store.as_raw_dict", "Store.occupied"):
         mk(ep, {"dtype": "float32", "state": "dense", "pseed": 2, "cap": 6}, {})
     for kind in ARCH_KINDS:
@@ -591,7 +645,7 @@ def check(rep, tier, seed, driver):
     from common import CORPUS
     rng = random.Random(seed)
     t0 = time.time()
-    budget = 55 if tier == "quick" else 420
+    budget = 40 if tier == "quick" else 400
     n_random = 500 if tier == "quick" else 8000
     n_read = 150 if tier == "quick" else 2500
     rep.rule = ("cases = (public entry point, object kind/dtype/extra fields/state, one of 5 caller layout classes per array argument "
